@@ -307,6 +307,30 @@ Definition from_yaml_json (s : list Z) : option metadata :=
 Definition from_yaml (yaml_oracle : list Z -> option metadata) (s : list Z) : option metadata :=
   match parse s with Some v => md_of_yaml v | None => yaml_oracle s end.
 
+(* ------------------------------------------------------------------ well-formed metadata
+   every string that occurs in it (version, logical paths, dict keys, string primitives, locations, dtypes ...)
+   is a sequence of code points 0..0x10FFFF without a high surrogate immediately followed by a low one
+   (Json.str_ok), and the manifest paths are pairwise distinct (it is a Python dict) *)
+Definition tensor_strs (t : tensor_entry) : list pystr := [t_location t; t_serializer t; t_dtype t].
+Definition shard_strs (s : shard) : list pystr := tensor_strs (sh_tensor s).
+Definition key_strs (k : dkey) : list pystr := match k with KStr s => [s] | _ => [] end.
+Definition entry_strs (e : entry) : list pystr :=
+  match e with
+  | EList => []
+  | EDict ks => flat_map key_strs ks
+  | EOrderedDict ks => flat_map key_strs ks
+  | EPrim _ sv _ rd => sv :: match rd with Some s => [s] | None => [] end
+  | ETensor t => tensor_strs t
+  | ESharded shs => flat_map shard_strs shs
+  | EChunked dt _ chs _ => dt :: flat_map shard_strs chs
+  | EDTensor shs _ _ => flat_map shard_strs shs
+  | EObject a b c _ => [a; b; c]
+  end.
+Definition entry_ok (e : entry) : bool := forallb str_ok (entry_strs e).
+Definition md_ok (md : metadata) : bool :=
+  str_ok (md_version md) && nodup_str (map fst (md_manifest md)) &&
+  forallb (fun pe => str_ok (fst pe) && entry_ok (snd pe)) (md_manifest md).
+
 (* ------------------------------------------------------------------ observations *)
 Definition obs_to_yaml (md : metadata) : val := vlistZ (to_yaml md).
 
